@@ -25,6 +25,9 @@ ARITH = dict(mov=lambda a, b: a, add=operator.add, sub=operator.sub, mul=operato
 CMP = dict(cmp_gt=operator.gt, cmp_ge=operator.ge, cmp_lt=operator.lt, cmp_le=operator.le, cmp_ne=operator.ne,
            cmp_eq=operator.eq)
 KINDS = ["intvar", "intreg", "fixvar", "fixreg", "iconst", "fconst", "inthash", "fixhash"]
+# the same variables reached as raw memory through the map's base register: `self.mx[...]` (fixed point) and
+# `self.mq[...]` (integer).  (A seeded change made mx an alias of mq; nothing had used the raw accessors.)
+MEMKINDS = ["fixmem", "intmem"]
 ICONSTS = [3, 1, -2, 7, 100000, 0, 2 ** 31]
 FCONSTS = ["0.29", "0.1", "3.5", "0.57", "1.15", "0.00001", "-0.29", "99999.99999", "2.0"]
 RAWS = [0, 1, -1, 29000, 100000, 99999, 100001, 350000, -29000, 12345678, 2 ** 31, 2 ** 40, -(2 ** 40), 57000,
@@ -54,6 +57,8 @@ def build(op, lk, rk, dstfixed, lc, rc, use_kernel=False, scope=None):
     def operand(self, kind, var, regno, const):
         if kind in ("intvar", "fixvar", "inthash", "fixhash"):
             return getattr(self, var)
+        if kind in MEMKINDS:
+            return (self.mx if kind == "fixmem" else self.mq)[self.r[m.base_register] + self.__dict__[var]]
         if kind == "intreg":
             self.sr[regno] = getattr(self, var)
             return self.sr[regno]
@@ -125,9 +130,9 @@ def operand_rec(kind, inst, var, const, hfd=0):
     if kind.endswith("hash"):
         key = type(inst).__dict__[var].count
         return dict(kind="fix" if kind.startswith("fix") else "int", fd=hfd, off=key, key=[key])
-    if kind in ("intvar", "intreg"):
+    if kind in ("intvar", "intreg", "intmem"):
         return dict(kind="int", fd=1, off=inst.__dict__[var])
-    if kind in ("fixvar", "fixreg"):
+    if kind in ("fixvar", "fixreg", "fixmem"):
         return dict(kind="fix", fd=1, off=inst.__dict__[var])
     if kind == "iconst":
         return dict(kind="iconst", v=word(const, N))
@@ -193,8 +198,36 @@ def byte_order_destinations(quick):
     return out
 
 
+def raw_memory_operands(quick):
+    out = []
+    k = 0
+    others = ["intvar", "fixvar", "iconst", "fconst", "fixreg", "fixmem", "intmem"]
+    for op in list(ARITH) + list(CMP):
+        for mk in MEMKINDS:
+            for other in others:
+                for side in (0, 1):
+                    lk, rk = (mk, other) if side == 0 else (other, mk)
+                    if op == "mov" and (side == 1 or other != "iconst"):
+                        continue
+                    if side == 1 and other in MEMKINDS:
+                        continue
+                    k += 1
+                    if quick and k % 3:
+                        continue
+                    lc = ICONSTS[k % len(ICONSTS)] if lk == "iconst" else FCONSTS[k % len(FCONSTS)]
+                    rc = ICONSTS[(k * 3 + 1) % len(ICONSTS)] if rk == "iconst" else FCONSTS[(k * 5 + 2) % len(FCONSTS)]
+                    if op in ("truediv", "floordiv", "mod") and rk == "iconst" and rc == 0:
+                        rc = 3
+                    for dstfixed in ((True, False) if op in ARITH else (False,)):
+                        if quick and (k // 3 + dstfixed) % 2 and op != "mov":
+                            continue
+                        out.append((op, lk, rk, dstfixed, lc, rc))
+    return out
+
+
 def run(ctx):
-    run_shapes(ctx, shapes_of(ctx.quick) + byte_order_destinations(ctx.quick), 5 if ctx.quick else 10)
+    run_shapes(ctx, shapes_of(ctx.quick) + byte_order_destinations(ctx.quick) + raw_memory_operands(ctx.quick),
+               5 if ctx.quick else 10)
 
 
 def run_shapes(ctx, shapes, nvec, part=""):
